@@ -286,7 +286,19 @@ func VerifC03_DeepRetry() {
 	n := uint32(verif.Choose("num_retries", verif.Param("maxretries", 12, 13)))
 	ds, sender, pool, p, ctx := zzMachine(n, true)
 	active0 := p.stats.DownstreamRequestActive.Count()
-	ds.OnReceive(ctx, protocol.CommonHeader{}, nil, nil)
+	// the request: headers only, headers + body, headers + body + trailers
+	var body buffer.IoBuffer
+	var trailers api.HeaderMap
+	switch verif.Choose("request_shape", 3) {
+	case 1:
+		body = buffer.NewIoBufferBytes([]byte("b"))
+		verif.Cover("with-body")
+	case 2:
+		body = buffer.NewIoBufferBytes([]byte("b"))
+		trailers = protocol.CommonHeader{"t": "v"}
+		verif.Cover("with-trailers")
+	}
+	ds.OnReceive(ctx, protocol.CommonHeader{}, body, trailers)
 	budget := int(n)
 	if budget < 3 {
 		budget = 3
